@@ -86,6 +86,13 @@ def stripRefresh : Op → Op
   | .metadata m _ => .metadata m none
   | op => op
 
+/-- Full metadata reaches the slot only through `publish_metadata` (the `fetchOk` event): the other `send_update` calls
+merge a peer list, a client-routes snapshot or a status hint (metadata/worker.rs:666, 679, 806, 823), so a `merge` /
+`mergeEstab` event carrying `.metadata` is not an event of the system and stutters. -/
+def carriesMetadata : Op → Bool
+  | .metadata _ _ => true
+  | _ => false
+
 /-- The metadata worker's task ends: pending request, queued requests and the `Sender` are dropped; if the receiver is
 gone as well the shared slot is freed. -/
 def stopProducer (s : Flow) : Flow :=
@@ -115,13 +122,14 @@ def step (s : Flow) : Ev → Flow
     { s with pending := none, fetching := false, answeredErr := s.answeredErr ++ s.pending.toList }
   | .fetchErrOnCc => s
   | .merge op =>
-    if s.producerGone then s
+    if s.producerGone || carriesMetadata op then s
     else if s.consumerGone then stopProducer s
     else { s with slot := apply s.slot (stripRefresh op) }
   | .mergeEstab op =>
     -- a server event handled DURING establishment: `fetch_on_candidate` ignores the `Break` of `handle_server_event`
     -- (metadata/worker.rs:469-477) - after a `SendError` nothing is applied and the producer goes on
-    if s.producerGone || s.consumerGone then s else { s with slot := apply s.slot (stripRefresh op) }
+    if s.producerGone || s.consumerGone || carriesMetadata op then s
+    else { s with slot := apply s.slot (stripRefresh op) }
   | .consumerTake =>
     if s.consumerGone || s.busy then s else
     match s.slot with
